@@ -534,6 +534,8 @@ class Tensor:
     # comparisons (elementwise -> bool tensor of SymBool/py bools)
     def _cmp(self, o, f):
         ov = o.a if _isinstance(o, Tensor) else o
+        if not _isinstance(ov, _np.ndarray):
+            ov = _objarr(_pyify(ov)) if not _isinstance(ov, _sc.Havoc) else _hv0()
         return Tensor(_np.frompyfunc(f, 2, 1)(self.a, ov), bool_)
 
     def __eq__(self, o):
@@ -1112,6 +1114,12 @@ def havoc_fresh(base, dt):
     if dt.cat >= 2:
         return _sc.HAVOC
     return _default_fresh(base, dt)
+
+
+def _hv0():
+    r = _np.empty((), dtype=object)
+    r[()] = _sc.HAVOC
+    return r
 
 
 def _all_havoc(a):
@@ -1831,6 +1839,18 @@ def _solve(A, b):
     return factor.solve(A, b)
 
 
+def _inv(A):
+    from . import factor
+    if A.a.ndim < 2 or A.a.shape[-1] != A.a.shape[-2]:
+        raise RuntimeError('linalg.inv: A must be batches of square matrices')
+    if factor.MODE == 'havoc':
+        factor.STATS['havoc'] += 1
+        return _fresh_tensor(A.a.shape, A.dtype, 'inv')
+    unsupported('linalg.inv (exact)')
+
+
+linalg.inv = _inv
+inverse = _inv
 linalg.qr = _qr
 linalg.svd = _svd
 linalg.solve = _solve
